@@ -1,12 +1,7 @@
-"""Per-property configuration of the checks: which harness components exercise the property's model,
-how many histories per tier, which observables are compared, trusted base and assumptions."""
+"""C04 — see py/props/__init__.py for the SPEC format."""
 
-COMPONENT_TRANSLATORS = {}
-
-PROPS = {}
-
-PROPS["C04"] = {
-    "components": [{"name": "connlimit", "quick": 600, "thorough": 40000}],
+SPEC = {
+    "components": [{"name": "connlimit", "coq_run": "Model.ConnLimit.run", "quick": 600, "thorough": 40000}],
     "rule": "histories = seeded random interleavings of Arrive/Finish(return|panic)/NoSource over 1-4 sources, "
             "limit in {-1,0..5}, amounts 1 (3/4 of histories) or 1..3, optional drain + capacity probe; "
             "non-trivial = contains both an admitted and a rejected arrival; distinct = distinct (config, op sequence)",
